@@ -166,6 +166,8 @@ type sut struct {
 	entered map[string]int // handler-entered counters by method
 }
 
+func init() { vgirpc.RegisterStateType(echoExchange{}) }
+
 func newSUT(version string) *sut {
 	s := &sut{version: version, entered: map[string]int{}}
 	s.srv = vgirpc.NewServer()
@@ -450,8 +452,8 @@ func (s *sut) run(route string, c clientCase, rng *rand.Rand, admitExpected bool
 		reqMethod := "u"
 		switch route {
 		case "http-init":
-			// producer-shaped kinds finish within /init (no continuation token involved)
-			k := []streamKind{streamKinds[0], streamKinds[1], streamKinds[4]}[rng.IntN(3)]
+			// every stream kind: producer-shaped ones finish within /init, exchange-shaped ones answer with a state token
+			k := streamKinds[rng.IntN(len(streamKinds))]
 			path, reqMethod = "/"+k.method+"/init", k.method
 			obs.Kind = k.kind
 		case "http-describe":
@@ -566,12 +568,32 @@ func main() {
 		"followup:refused:dynamic-producer", "followup:refused:dynamic-exchange", "followup:refused:producer", "followup:refused:exchange",
 		"followup:refused:producer-header", "followup:refused:exchange-header", "followup:refused:unary",
 		"followup:admitted:dynamic-producer", "followup:admitted:dynamic-exchange", "followup:admitted:exchange", "followup:admitted:describe",
-		"followup-call:unary", "followup-call:describe",
+		"followup-call:unary", "followup-call:describe", "server-version:random-canonical",
+		"kind:exchange", "kind:dynamic-exchange", "refusal-names-client:absent-or-malformed",
 		"route:pipe-unary", "route:pipe-stream", "route:http-unary", "route:http-init", "route:pipe-describe", "route:http-describe")
 
 	suts := make([]*sut, 0, len(serverVersions)+1)
 	for _, v := range serverVersions {
 		suts = append(suts, newSUT(v))
+	}
+	// the fixed list above is a set of traps; membership in the domain is decided by
+	// SetProtocolVersion itself (it panics on anything it does not accept), so add versions
+	// drawn from the canonical grammar at large
+	vrng := r.Rand(2)
+	for i := 0; i < 16; i++ {
+		comp := func() string {
+			switch vrng.IntN(4) {
+			case 0:
+				return "0"
+			case 1:
+				return fmt.Sprint(vrng.IntN(100))
+			case 2:
+				return fmt.Sprint(vrng.Uint64())
+			}
+			return hugeDigits(vrng).String()
+		}
+		suts = append(suts, newSUT(comp()+"."+comp()+"."+comp()))
+		r.Class("server-version:random-canonical")
 	}
 	none := newSUT("")
 	total := r.N(60000, 3000000)
@@ -670,6 +692,16 @@ func main() {
 			r.Violation("gate:"+route+":wrong-error-kind:"+sigClass, "refusal does not carry error_kind=protocol_version_mismatch", w)
 			continue
 		}
+		if exp.direction == "" {
+			// absent / malformed: there is no version to compare, the party that has to act is
+			// the client; the message must at least not send the operator to upgrade the server
+			r.Class("refusal-names-client:absent-or-malformed")
+			msg := strings.ToLower(obs.Message)
+			if strings.Contains(msg, "server is too old") || !strings.Contains(msg, "client") {
+				w.Expected = "message names the client (absent / malformed declaration)"
+				r.Violation("gate:"+route+":wrong-direction:"+exp.why, "refusal of an absent/malformed declaration does not name the client", w)
+			}
+		}
 		if exp.direction != "" {
 			msg := strings.ToLower(obs.Message)
 			saysClient := strings.Contains(msg, "client is too old")
@@ -682,7 +714,23 @@ func main() {
 			}
 		}
 	}
-	r.Set("server_versions", len(serverVersions)+1)
+	// Counted, not judged: a request carrying the vgi_rpc.protocol_version key TWICE (one
+	// admissible, one not). The statement speaks of "the" declared version; which of two wins is
+	// not defined, so the outcome is only recorded.
+	{
+		s := suts[2] // 1.2.3
+		for _, order := range [][2]string{{"1.2.3", "9.9.9"}, {"9.9.9", "1.2.3"}} {
+			kv := []wd.KV{{K: "vgi_rpc.protocol_version", V: order[0]}, {K: "vgi_rpc.protocol_version", V: order[1]}}
+			before := s.entered["u"]
+			wd.Pipe(s.srv, wd.EmptyRequest("u", kv...))
+			pipeRan := s.entered["u"] > before
+			before = s.entered["u"]
+			wd.HTTPDo(s.http, http.MethodPost, "/u", wd.EmptyRequest("u", kv...), [][2]string{{"Content-Type", wd.ArrowCT}}, false)
+			httpRan := s.entered["u"] > before
+			r.Set("unjudged.duplicate-key["+order[0]+","+order[1]+"]", map[string]bool{"pipe_dispatched": pipeRan, "http_dispatched": httpRan})
+		}
+	}
+	r.Set("server_versions", len(suts)+1)
 	for _, s := range append(suts, none) {
 		n := 0
 		for _, v := range s.entered {
